@@ -6,7 +6,7 @@ import z3
 
 from checks import common, mahal
 from checks.common import case
-from symx import core, slicer, stubs
+from symx import core, slicer, stubs, harness
 from symx.npproxy import NP
 
 FUNCS = ['metric_learn.scml._BaseSCML._fit: dual-averaging loop body (sliced, two chained iterations from an arbitrary state)',
@@ -59,7 +59,7 @@ def steps_case(nb=2, nt=2, dset=None, nsteps=2):
     for k_ in range(nsteps):
       rand_int[it0 + k_, 0] = draws[k_]
 
-    class Self_:
+    class Self_(harness.StandIn):
       pass
     s = Self_()
     s.beta, s.gamma, s.batch_size, s.output_iter, s.verbose = beta, gamma, 1, 1, False
